@@ -84,3 +84,67 @@ def flatten(h):
         if getattr(ctx, 'after_loop', None) == 'rows':
             ctx.oblige('flatten: the header is not emitted and nothing follows the last row', z3.And(ctx.pre_loop_out.len == 0, res.out.len == 0))
     h.explore(body)
+
+
+@vc('C14.UnflattenView', functions=[R + 'UnflattenView.__iter__', R + 'UnflattenView.__init__'], props=['C14', 'C03'],
+    assumptions=['requires period >= 1', 'hybrid loop rule: the partial row is a function of the position (invariant), emission stated per value'])
+def unflatten(h):
+    """unflatten(values, period): the values are cut into consecutive windows of `period` values, each window one row, in
+    order; the first window starts at the first value and the last, incomplete, window is padded with `missing` -- every
+    value lands in exactly one cell, a final COMPLETE window is not lost, nothing is emitted for no values."""
+    def body(ctx):
+        box = {}
+
+        def inv(ls):
+            row = ls['row']
+            k = ls.k.t
+            q = smt.fresh_int('q')
+            return z3.And(z3.If(k == 0, row.len == 0, z3.And(1 <= row.len, row.len <= period.t)), row.len <= k,
+                          z3.ForAll([q], z3.Implies(z3.And(0 <= q, q < row.len), z3.Select(row.arr, q) == z3.Select(vals.arr, k - row.len + q))))
+
+        def rebind(ls):
+            box['len_before'] = ls['row'].len
+
+        def delta(ls, x, dout):
+            k = ls.k.t
+            o = out_row(dout, 0)
+            q = smt.fresh_int('q')
+            full = box['len_before'] == period.t
+            ctx.oblige('unflatten: a row is emitted exactly when a value arrives and the window before it is full; it is the `period` values that precede that value, in order',
+                       z3.If(full, z3.And(dout.len == 1, o.len == period.t,
+                                          z3.ForAll([q], z3.Implies(z3.And(0 <= q, q < period.t), z3.Select(o.arr, q) == z3.Select(vals.arr, k - period.t + q)))),
+                             dout.len == 0))
+            ctx.oblige('unflatten: windows tile the values: the pending window grows by the arriving value, or -- right after an emission -- restarts with exactly that value',
+                       ls['row'].len == z3.If(full, 1, box['len_before'] + 1))
+        qn = R + 'UnflattenView.__iter__'
+        spec = LoopSpec(invariant=inv, delta=delta, label='values', types={'row': 'seq'})
+        spec.rebind = rebind
+        it = h.interp(ctx, loops={(qn, 0): spec})
+        it.check_pulls = False
+        vals = sym_seq(ctx, 'vals')
+        period, missing = sym_int('period'), sym_cell('missing')
+        ctx.assume(period.t >= 1)
+        cls = closure_of(it, R + 'UnflattenView')
+        view = it.call(cls, [vals, period], {'missing': missing})
+        res = run_generator(it, cls.find('__iter__')[0], [view])
+        if res.exc is not None:
+            ctx.oblige('unflatten: never raises', z3.BoolVal(False), res.exc.origin or '')
+            return
+        if getattr(ctx, 'after_loop', None):
+            pre, post = ctx.pre_loop_out, res.out
+            row = res.env.lookup('row')
+            row = row if isinstance(row, Seq) else view_seq(row)
+            n = vals.len
+            o = out_row(post, 0)
+            q = smt.fresh_int('q')
+            rem = smt.fresh_int('rem')
+            # the pending window at the end: the last `rem` values, 1 <= rem <= period unless there were no values (invariant at exit)
+            ctx.oblige('unflatten: after the last value the pending window (1..period values, the LAST ones) is emitted once, padded with `missing`; '
+                       'nothing is emitted when there are no values',
+                       z3.If(n == 0, post.len == 0,
+                             z3.And(post.len == 1, o.len == period.t,
+                                    z3.Exists([rem], z3.And(1 <= rem, rem <= period.t, rem <= n,
+                                                            z3.ForAll([q], z3.Implies(z3.And(0 <= q, q < period.t),
+                                                                                      z3.Select(o.arr, q) == z3.If(q < rem, z3.Select(vals.arr, n - rem + q), missing.t))))))))
+            ctx.oblige('unflatten: exactly one header row before the data', pre.len == 1)
+    h.explore(body)
